@@ -20,6 +20,8 @@ Definition source_constants_as_modelled : Prop :=
   operand_unique OperandArray = src_index_set_assume_unique_ndarray /\
   operand_unique OperandIndex = src_index_set_assume_unique_index /\
   src_index_set_equals_compares_dtype = true /\
+  (* Index.equals: the skipna mask is "missing on BOTH sides" (self & other); M_index_equals reads these *)
+  src_index_equals_mask_operands = ["self"; "other"] /\
   (* M_from_correspondence: intersect1d / intersect2d with assume_unique = true *)
   src_correspondence_assume_unique = [true; true].
 
